@@ -354,7 +354,7 @@ func (header CdrHeader) Encoding() []byte {
 	return buf.Bytes()
 }
 
-func (cdfFile CDRFile) Encoding(fileName string) {
+func (cdfFile CDRFile) Encoding(fileName string) error {
 	buf := new(bytes.Buffer)
 
 	// Cdr File Header
@@ -386,10 +386,9 @@ func (cdfFile CDRFile) Encoding(fileName string) {
 	}
 
 	// fmt.Printf("Encoded: %b\n", buf.Bytes())
-	err := os.WriteFile(fileName, buf.Bytes(), 0o666)
-	if err != nil {
-		panic(err)
-	}
+	// the file name may be built from request data: a file that cannot be
+	// written is an error for the caller to handle, not a reason to crash
+	return os.WriteFile(fileName, buf.Bytes(), 0o666)
 }
 
 func (cdfFile *CDRFile) Decoding(fileName string) {
